@@ -206,6 +206,9 @@ func getSignedAttributes(req *signature.SignRequest, algorithm string) (map[stri
 		if !ok {
 			return nil, &signature.InvalidSignRequestError{Msg: "JWS envelope format only supports key of type string"}
 		}
+		if contains(headerKeys, key) {
+			return nil, fmt.Errorf("attribute key:%s repeated", key)
+		}
 		if _, ok := extAttrs[key]; ok {
 			return nil, &signature.InvalidSignRequestError{Msg: fmt.Sprintf("%q already exists in the extAttrs", key)}
 		}
